@@ -207,6 +207,11 @@ def run(ctx):
     import symeval
     ev = symeval.Eval(F, enc, lambda b, k, x: None)
     bom = [l for l in range(len(enc.locals)) if enc.lty(l) == "u16" and len(enc.defs.get(l, [])) == 1 and ev.val({"c": {"l": l, "p": []}}) == 0xFEFF]
+    # ... or the one-element array of it promoted to constant data (`[BOM].iter()` with BOM a named constant): the u16 FEFF in memory
+    for _bi, _si, st in enc.stmts():
+        k_ = op_const(st["rv"]["o"]) if st.get("rv") and st["rv"]["k"] == "use" else None
+        if k_ and re.match(r"^&?\[u16; 1\]$", k_.get("ty", "")) and (k_.get("refraw") or k_.get("raw")) == "fffe":
+            bom.append(st["lhs"]["l"])
     u16s = [c for c in enc.calls if re.search(r"str::<impl str>::encode_utf16$", c.fn or "")]
     ctx.ob(R, "encoder-utf16be", len(be) >= 2 and not le and bom and len(u16s) == 1, "encode_utf16_be writes FEFF and every UTF-16 unit big-endian", enc.where(),
            what="encode_utf16_be does not write the FE FF mark followed by big-endian UTF-16 units (surrogate pairs via encode_utf16)")
